@@ -74,7 +74,12 @@ def case_read(arg):
             tr['reftime'] = [ref.year, ref.month, ref.day, ref.hour,
                              ref.minute, ref.second]
             nsfc = len(cfg['sfc'])
-            for s, name in enumerate(cfg['sfc'] + cfg['lay']):
+            laynames = []
+            for lv in cfg['levv']:
+                for nm in lv:
+                    if nm not in laynames:
+                        laynames.append(nm)
+            for s, name in enumerate(cfg['sfc'] + laynames):
                 rec = {'ok': True, 'v': []}
                 if name not in f.variables:
                     rec['ok'] = False
